@@ -56,13 +56,14 @@ def dep_tags(d: HTMLDependency, lib_prefix: Optional[str], include_version: bool
     for m in d.meta:
         out.append(Tag("meta", **m))
     for s in d.stylesheet:
-        attrs = dict(s)
-        attrs["href"] = _join(base, urllib.parse.quote(s["href"]))
-        attrs["rel"] = "stylesheet"
+        attrs = {k: (_join(base, urllib.parse.quote(v)) if k == "href" else v) for k, v in s.items()}
+        if "rel" in attrs:
+            attrs = {k: ("stylesheet" if k == "rel" else v) for k, v in attrs.items()}
+        else:
+            attrs["rel"] = "stylesheet"
         out.append(Tag("link", **attrs))
     for s in d.script:
-        attrs = dict(s)
-        attrs["src"] = _join(base, urllib.parse.quote(s["src"]))
+        attrs = {k: (_join(base, urllib.parse.quote(v)) if k == "src" else v) for k, v in s.items()}
         out.append(Tag("script", **attrs))
     if d.head is not None:
         out.extend(list(d.head))
